@@ -14,7 +14,8 @@ RULE = ('part "pairs": all 256 single bytes and all 65,536 byte pairs through p8
         'written to .p8 and read back. Non-trivial = the string contains a byte >= 0x80 or < 0x20 '
         '(a byte whose spelling is not its ASCII self); distinct by the byte string.'
         ' Part "file_big": > 64 KiB of UTF-8 (24k characters of glyph comment lines at seven alignments; one 22k-glyph line with escapes) through the .p8 writer and reader, and every line of the form __X__ with X a byte >= 0x80 or a near-miss of a section header inside a long string.'
-        ' Before every conversion a text that is NOT P8SCII (a glyph without its variation selector, an accented letter) is handed to unicode_to_p8scii; the UTF-8 encodings of all glyphs, taken as P8SCII bytes, are written to a .p8 and read back directly and through `#include lib.p8`.')
+        ' Before every conversion a text that is NOT P8SCII (a glyph without its variation selector, an accented letter) is handed to unicode_to_p8scii; the UTF-8 encodings of all glyphs, taken as P8SCII bytes, are written to a .p8 and read back directly and through `#include lib.p8`.'
+        ' Section names and #include directly after a bare CR (still the middle of a .p8 line) inside long strings.')
 ASSUMPTIONS = ['the 256 spellings in P8SCII_CHARSET are taken as data; whether they are the glyphs PICO-8 '
                'itself writes cannot be checked here (no PICO-8 binary)']
 LEVEL_TEXT = ('Exploration with an exhaustive core: every byte and every byte pair is round-tripped, which '
